@@ -449,6 +449,18 @@ Theorem quorum_is_taken_over_all_stored_evidence :
 Proof. exact (conj eq_refl (@EvidenceHistoryProofs.process_weighs_all)). Qed.
 Print Assumptions quorum_is_taken_over_all_stored_evidence.
 
+(** ---- eighth round ---- *)
+
+(** Re-assigning a queued message to another relayer (Queue.ReassignValidator) writes only the packed consensus
+    message (its assignee fields) and saves: the translator refuses a write to any other field or a call of a mutator
+    of the queued message (seeded change C04-R cleared the elected estimate there).  It is therefore no operation on
+    the estimate state [qmsg], and [elected_never_changes] covers every history that contains re-assignments. *)
+Theorem reassignment_keeps_election :
+  Gen.C04.reassign_writes = ["assignable.SetAssignee(ctx, val, remoteAddr)"; "msg.Msg = anyMsg"; "c.save(ctx, msg)"]%string /\
+  forall (ops : list qm_op) (m : qmsg), q_elected m <> 0 -> q_elected (fold_left qm_step ops m) = q_elected m.
+Proof. exact (conj eq_refl elected_stays). Qed.
+Print Assumptions reassignment_keeps_election.
+
 
 (* --- source translation tie (GenFn) --- *)
 (* The Go function bodies named below are re-translated from the source on every check
